@@ -114,7 +114,7 @@ func (r *c07Run) Main(s *sim.Sim) {
 	ctx := context.Background()
 	ora := newSecOracle(s, r.Cfg, "C08")
 	ora.MaxC2S, ora.MaxS2C = int(r.Chunk), int(r.Chunk)
-	ora.SizeProp = "C07"
+	ora.SizeProp = "C07" // secOracle also reports C06 for an oversized chunk
 	// contiguity / flags: the oracle reassembles and records what each request id carried
 	type wireMsg struct {
 		dir  string
